@@ -720,6 +720,38 @@ class Program:
         for k in self.pdb.bodies:
             yield self.func(k)
 
+    def inline(self, t, depth=3, only=None):
+        """t with every call of a straight-line in-crate helper replaced by the helper's value: a helper qualifies when it has one
+        return site whose term mentions no callee-local state (multi-definition locals, loop items, upvars); its parameters are
+        replaced by the argument terms.  Calls that do not qualify stay as they are."""
+        if depth <= 0:
+            return t
+
+        def one(n):
+            if tag(n) != 'call' or n[1] not in self.pdb.bodies or (only is not None and not only(n[1])):
+                return n
+            g = self.func(n[1])
+            if g is None or g.body.kind == 'closure':
+                return n
+            rets = g.return_values()
+            if len(rets) != 1:
+                return n
+            bad = []
+
+            def sub(m):
+                if tag(m) == 'arg':
+                    if 1 <= m[1] <= len(n[2]):
+                        return n[2][m[1] - 1]
+                    bad.append(m)
+                elif tag(m) in ('local', 'item', 'upvar'):
+                    bad.append(m)
+                return m
+            out = map_term(rets[0], sub)
+            if bad:
+                return n
+            return self.inline(out, depth - 1, only)
+        return map_term(t, one)
+
     def callees(self, key):
         """resolved in-crate callee keys (including closures created in the body)"""
         f = self.func(key)
